@@ -68,6 +68,23 @@ theorem zero_size_leaf_restored :
   · simp [tasksTree, tasksKids, numel]
   · simp [save, runTasks, runWrites, tasksTree, tasksKids, numel, load, loadEntries, Slots.write, nodeMeta, metaEntry]
 
+/-- a lazy stack saved over a **longer** one: the directory keeps the sub-directory of the former third
+    member. The repaired loader (bounded by the recorded `len`) returns the two members just saved
+    (an instance of `load_save`, which needs no fresh directory); the enumeration of the pinned
+    loader (`while (prefix / str(i)).exists()`, i.e. no bound) finds three. -/
+theorem pinned_lazy_stale_members_counterexample :
+    let m (v : Nat) : Tree := .node [] "cpu" [("a", .leaf "torch.uint8" [1] [v])]
+    let t3 := Tree.lazy 0 [("0", m 0), ("1", m 1), ("2", m 2)]
+    let t2 := Tree.lazy 0 [("0", m 10), ("1", m 11)]
+    let fs := save (save (fun _ => none) [] t3) [] t2
+    load 2 fs [] = some t2 ∧ (loadMembers 1 fs [] 0 5).map List.length = some 3 := by
+  have r0 : Nat.repr 0 = "0" := by decide
+  have r1 : Nat.repr 1 = "1" := by decide
+  have r2 : Nat.repr 2 = "2" := by decide
+  have r3 : Nat.repr 3 = "3" := by decide
+  simp [r0, r1, r2, r3, save, runTasks, runWrites, tasksTree, tasksKids, numel, load, loadEntries, loadMembers, Slots.write,
+    nodeMeta, lazyMeta, metaEntry]
+
 /-- a write through one mapping of a leaf is a write to the file's cell: every other mapping of that
     cell, and every later `load`, reads the new bytes; no other cell changes -/
 theorem write_through_mapping (fs : FS) (dir : Path) (key : String) (bytes : List Nat) (p : Path) :
@@ -122,6 +139,14 @@ theorem dtype_string_roundtrip :
 example : PathSafe (.node [2] "cpu" [("a", .leaf "torch.int32" [2] [1, 0, 0, 0, 2, 0, 0, 0]),
     ("n", .node [2] "cpu" [("z", .leaf "torch.float32" [2, 0] [])]), ("s", .nontensor "hello" [2])]) := by
   simp [PathSafe, PathSafeKids, entryName]
+example : PathSafe (.lazy 0 [("0", .node [] "cpu" [("a", .leaf "torch.uint8" [1] [7])]), ("1", .node [] "cpu" [])])
+    ∧ WF (.lazy 0 [("0", .node [] "cpu" [("a", .leaf "torch.uint8" [1] [7])]), ("1", .node [] "cpu" [])]) := by
+  refine ⟨by simp [PathSafe, PathSafeKids, entryName], ?_⟩
+  simp only [WF, WFKids, isColl]
+  refine ⟨?_, by simp, by simp [numel]⟩
+  intro j h
+  have : j = 0 ∨ j = 1 := by simp at h; omega
+  rcases this with rfl | rfl <;> rfl
 /-- the excluded point: key "a.memmap" as a node beside a leaf "a" -/
 example : ¬ PathSafe (.node [] "None" [("a", .leaf "torch.uint8" [] [1]), ("a.memmap", .node [] "None" [])]) := by
   simp [PathSafe, entryName]
